@@ -716,6 +716,56 @@ def run_long_rows(case):
             lengths=lens)
     return Info(second is None, ["long_L=%d" % case["L"], "long_equal=%s" % (second is not None), "how=" + case["how"]])
 
+
+# --------------------------------------------------------------------------
+# rows of DIFFERENT element types (an integer row next to a fractional one, a bool row next to counts): a list of rows
+# concatenates them with numpy's promotion, whichever row comes first
+
+MIXED = [["int64", "float64"], ["bool", "int64"], ["int8", "int64"], ["int32", "float32"], ["float32", "float64"],
+         ["uint8", "int16"]]
+
+
+@st.composite
+def mixed_rows_case(draw):
+    pair = list(draw(st.sampled_from(MIXED)))
+    if draw(st.booleans()):
+        pair.reverse()
+    n = draw(st.integers(2, 5))
+    dts = [pair[0]] + [draw(st.sampled_from(pair)) for _ in range(n - 2)] + [pair[1]]
+    return {"dtypes": dts, "lengths": [draw(st.integers(1, 5)) for _ in range(n)], "how": draw(st.sampled_from(["arrays", "nested"])),
+            "seed": draw(st.integers(0, 10 ** 6))}
+
+
+def run_mixed_rows(case):
+    rng = np.random.RandomState(case["seed"])            # seed drawn by Hypothesis
+    rows = []
+    for dt, L in zip(case["dtypes"], case["lengths"]):
+        if dt == "bool":
+            rows.append(rng.rand(L) < 0.5)
+        elif dt.startswith("float"):
+            rows.append((rng.randint(-20, 20, size=L) + 0.5).astype(dt))
+        else:
+            hi = min(int(np.iinfo(dt).max), 10 ** 6 if dt == "int64" else 100)
+            rows.append(rng.randint(0, hi, size=L).astype(dt) if dt != "int64" else (rng.randint(0, 100, size=L) * 10 ** 4).astype(dt))
+    want_dtype = np.concatenate(rows).dtype
+    if case["how"] == "nested":
+        a = ra.RaggedArray([r.tolist() for r in rows])
+        model = [np.array(r.tolist()) for r in rows]
+        want_dtype = np.concatenate(model).dtype
+    else:
+        a = ra.RaggedArray([r.copy() for r in rows])
+        model = rows
+    model = [np.asarray(r).astype(want_dtype) for r in model]
+    bad = R.diff_against_rows(a, model)
+    require(not bad, "an array built from rows of different element types disagrees with the concatenated list of rows",
+            diff=bad, dtypes=case["dtypes"], how=case["how"])
+    require(a.dtype == want_dtype, "dtype differs from np.concatenate(rows).dtype", got=str(a.dtype), want=str(want_dtype),
+            dtypes=case["dtypes"])
+    flat = np.concatenate(model)
+    require(R.values_equal(a.flatten(), flat), "flatten() differs from the concatenated rows", got=a.flatten().tolist(), want=flat.tolist())
+    narrow_first = np.dtype(case["dtypes"][0]) != want_dtype
+    return Info(narrow_first, ["mixed=%s" % "+".join(sorted(set(case["dtypes"]))), "narrow_row_first=%s" % narrow_first, "how=" + case["how"]])
+
 # ======================================================================================================
 # exhaustive small sub-domains (thorough)
 
@@ -890,6 +940,8 @@ CLAUSES = [
     # fancy
     Clause("huge_row_count", huge_case(), run_huge, quick=8, thorough=64,
            doc="arrays with 19999..20007 rows (the constructor's input checking is switched off above 20000)"),
+    Clause("construct_mixed_dtype_rows", mixed_rows_case(), run_mixed_rows, quick=300, thorough=4000,
+           doc="rows of different element types (either order): values, dtype and flatten as np.concatenate gives them"),
     Clause("long_rows", long_rows_case(), run_long_rows, quick=12, thorough=120,
            doc="2-4 rows of 10^5..2*10^6 elements whose lengths differ by 0..3: shape, starts, element reads, outside-row raises"),
     Clause("paired_long_rows", case_paired(eshapes=("scalar",), max_rows=4, max_len=150), run_read, quick=300, thorough=3000,
